@@ -242,21 +242,9 @@ struct Runner {
                 }
                 return std::string("-");
             });
-            if (completed) {
-                // life cycle: a completed key has a satisfied promise, so one of the futures handed out
-                // for this key is ready (nothing runs between the unlock and this check)
-                bool any = false;
-                bool known = false;
-                for (size_t i = 0; i < futs.size(); ++i) {
-                    if (futs[i].have && futs[i].strKey == str && futs[i].key == k) {
-                        known = true;
-                        any = any || ready(int(i));
-                    }
-                }
-                if (known && !any) {
-                    verif::fail("isCompleted(" + (str ? skey(k) : std::to_string(k)) + ") is true but no future of that key is ready");
-                }
-            }
+            // (no client-side life-cycle monitor here: with other threads running between the call's unlock and its return
+            //  any such check is racy; the python oracle judges the answers of the queries)
+            (void)completed;
         } else if (c0 == 'a' && c1 == 'w') {
             // harness await: a scheduling point that is enabled once the future is ready (the scheduler polls
             // wait_for(0) on behalf of the consumer; never a blocking get() it cannot see).  A future that is never
